@@ -229,7 +229,7 @@ func byCallee(sub ...string) func(cc *ssa.CallCommon) bool {
 // render gives a canonical, name-independent text for an SSA value: parameters
 // are $r / $0.., locals disappear (SSA), fields, callees and constants are
 // spelled out. It is the atom language of the guard algebra.
-func render(v ssa.Value) string { return renderD(v, 8) }
+func render(v ssa.Value) string { return renderD(v, 14) }
 
 func renderD(v ssa.Value, d int) string {
 	if v == nil {
@@ -272,11 +272,11 @@ func renderD(v ssa.Value, d int) string {
 	case *ssa.Alloc:
 		return "alloc<" + shortType(x.Type()) + ">"
 	case *ssa.FieldAddr:
-		return "&" + renderD(x.X, d-1) + "." + fieldName(x.X.Type(), x.Field)
+		return "&" + strings.TrimPrefix(renderD(x.X, d-1), "&") + "." + fieldName(x.X.Type(), x.Field)
 	case *ssa.Field:
 		return renderD(x.X, d-1) + "." + fieldName(x.X.Type(), x.Field)
 	case *ssa.IndexAddr:
-		return "&" + renderD(x.X, d-1) + "[" + renderD(x.Index, d-1) + "]"
+		return "&" + strings.TrimPrefix(renderD(x.X, d-1), "&") + "[" + renderD(x.Index, d-1) + "]"
 	case *ssa.Index:
 		return renderD(x.X, d-1) + "[" + renderD(x.Index, d-1) + "]"
 	case *ssa.Lookup:
@@ -362,7 +362,7 @@ func renderCall(cc *ssa.CallCommon, d int) string {
 	}
 	name := methodName(cc)
 	if recv != nil {
-		return renderD(recv, d-1) + "." + name + "(" + strings.Join(as, ",") + ")"
+		return strings.TrimPrefix(renderD(recv, d-1), "&") + "." + name + "(" + strings.Join(as, ",") + ")"
 	}
 	if f, ok := cc.Value.(*ssa.Function); ok && f.Pkg != nil {
 		return f.Pkg.Pkg.Name() + "." + name + "(" + strings.Join(as, ",") + ")"
@@ -651,12 +651,37 @@ func definitelyNonNilErr(v ssa.Value, guards []Guard) bool {
 	case *ssa.Call:
 		n := methodName(x.Common())
 		switch n {
-		case "New", "Errorf", "Wrap", "Wrapf", "WithStack", "Error", "NewBase", "WithCode", "Wrapc", "Errorc", "Errorcf", "AttachTo", "Wrapcf":
+		case "New", "Errorf", "NewBase", "Errorc", "Errorcf":
 			return true
+		case "Wrap", "Wrapf", "WithStack", "WithCode", "Wrapc", "AttachTo", "Wrapcf":
+			// the repo's wrappers return nil for a nil error: non-nil iff the wrapped error is
+			_, args := callArgs(x.Common())
+			for _, a := range args {
+				if types.TypeString(a.Type(), nil) == "error" {
+					return definitelyNonNilErr(a, guards)
+				}
+			}
+			return false
 		}
 	case *ssa.UnOp:
 		if g, ok := x.X.(*ssa.Global); ok && x.Op == token.MUL && strings.HasPrefix(g.Name(), "Err") {
 			return true
+		}
+	case *ssa.Phi:
+		// every incoming value is non-nil under the conditions of its own edge
+		if phiDepth <= 6 {
+			phiDepth++
+			all := len(x.Edges) > 0
+			for i, e := range x.Edges {
+				if !definitelyNonNilErr(e, guardsOnEdge(x.Block().Preds[i], x.Block())) {
+					all = false
+					break
+				}
+			}
+			phiDepth--
+			if all {
+				return true
+			}
 		}
 	}
 	for _, g := range guards {
@@ -959,13 +984,17 @@ func altGuardsD(b *ssa.BasicBlock, depth int) [][]Guard {
 			fwd = append(fwd, p)
 		}
 	}
-	if len(fwd) <= 1 || depth == 0 || len(fwd) > 6 {
+	if len(fwd) == 0 || depth == 0 || len(fwd) > 6 {
 		return [][]Guard{guardsAtBlock(b)}
+	}
+	nd := depth
+	if len(fwd) > 1 {
+		nd = depth - 1
 	}
 	var out [][]Guard
 	for _, p := range fwd {
 		edge := edgeGuard(p, b)
-		for _, alt := range altGuardsD(p, depth-1) {
+		for _, alt := range altGuardsD(p, nd) {
 			g := append(append([]Guard{}, edge...), alt...)
 			out = append(out, g)
 			if len(out) > 24 {
@@ -1192,4 +1221,62 @@ func unspill(ret *ssa.Return) []ssa.Value {
 		return nil
 	}
 	return out
+}
+
+// ------------------------------------------------- path-sensitive exit sites
+
+// exitAlt is one way out of a function on one alternative path (merges are
+// split up to the altGuards bound), with the branch conditions known there.
+type exitAlt struct {
+	retSite
+	Guards []Guard
+}
+
+func exitAlts(fn *ssa.Function) []exitAlt {
+	var out []exitAlt
+	for _, rs := range returnSites(fn) {
+		var alts [][]Guard
+		if rs.Pred != nil {
+			eg := edgeGuard(rs.Pred, rs.Ret.Block())
+			for _, a := range altGuards(rs.Pred) {
+				alts = append(alts, append(append([]Guard{}, eg...), a...))
+			}
+		} else {
+			alts = altGuards(rs.Ret.Block())
+		}
+		for _, a := range alts {
+			out = append(out, exitAlt{rs, a})
+		}
+	}
+	return out
+}
+
+// successAlts: the exit alternatives on which the error result may be nil.
+func successAlts(fn *ssa.Function) []exitAlt {
+	idx := errResultIndex(fn)
+	var out []exitAlt
+	for _, e := range exitAlts(fn) {
+		if idx >= 0 && definitelyNonNilErr(e.Results[idx], e.Guards) {
+			continue
+		}
+		out = append(out, e)
+	}
+	return out
+}
+
+// provablyNil: the value is the nil constant or guarded by `v == nil`.
+func provablyNil(v ssa.Value, gs []Guard) bool {
+	if isNilConst(v) {
+		return true
+	}
+	for _, g := range gs {
+		if b, ok := g.Cond.(*ssa.BinOp); ok {
+			if (b.Op == token.EQL && g.Pol) || (b.Op == token.NEQ && !g.Pol) {
+				if (sameValue(b.X, v) && isNilConst(b.Y)) || (sameValue(b.Y, v) && isNilConst(b.X)) {
+					return true
+				}
+			}
+		}
+	}
+	return false
 }
